@@ -3,12 +3,14 @@ package checks
 import (
 	"fmt"
 	"reflect"
+	"sort"
 	"strings"
 
 	"github.com/antonmedv/expr"
 
 	"verif/internal/envs"
 	"verif/internal/mon"
+	"verif/internal/ref"
 	"verif/internal/runner"
 	"verif/internal/term"
 )
@@ -33,7 +35,13 @@ type Tag struct{ N string }
 
 func (t Tag) String() string { return "#" + t.N }
 
+// a defined slice type: operands of the unnamed type []int do not match it
+type IntList []int
+
 type OpEnv struct {
+	L1, L2   IntList
+	EqList   func(a, b IntList) bool
+	CatList  func(a, b IntList) IntList
 	M1, M2   Money
 	Monies   []Money
 	Arr, Brr []int
@@ -80,6 +88,8 @@ func newOpEnv(r *runner.Rng) *OpEnv {
 	for i := r.Intn(4); i > 0; i-- {
 		e.Monies = append(e.Monies, Money{r.Intn(100), "EUR"})
 	}
+	// empty, not nil: how a nil slice compares with an empty one is not defined
+	e.Arr, e.Brr = []int{}, []int{}
 	for i := r.Intn(5); i > 0; i-- {
 		e.Arr = append(e.Arr, r.Intn(20)-5)
 	}
@@ -99,6 +109,9 @@ func newOpEnv(r *runner.Rng) *OpEnv {
 		add("AddInts(%v,%v)", a, b)
 		return append(append([]int{}, a...), b...)
 	}
+	e.L1, e.L2 = IntList{1, 2}[:r.Intn(3)], IntList{1, 2}[:r.Intn(3)]
+	e.EqList = func(a, b IntList) bool { add("EqList(%v,%v)", a, b); return len(a) == len(b) }
+	e.CatList = func(a, b IntList) IntList { add("CatList(%v,%v)", a, b); return append(append(IntList{}, a...), b...) }
 	e.AddStr = func(a, b fmt.Stringer) string { add("AddStr(%v,%v)", a, b); return a.String() + b.String() }
 	e.EqAny = func(a, b interface{}) string { add("EqAny(%v,%v)", a, b); return fmt.Sprintf("%v|%v", a, b) }
 	e.Pick = func(m Money) Money { add("Pick(%v)", m); return Money{m.Cents + 1, m.Cur} }
@@ -121,6 +134,7 @@ var (
 	moniesT = reflect.TypeOf([]Money{})
 	tagT    = reflect.TypeOf(Tag{})
 	opEnvT  = reflect.TypeOf(OpEnv{})
+	listT   = reflect.TypeOf(IntList{})
 )
 
 // overload tables: operator -> candidate function names in order
@@ -131,6 +145,7 @@ var c17Tables = []opTable{
 	{"+": {"AddInts", "AddStr", "AddMoney"}, "==": {"EqMoney", "EqAny"}, "<": {"LtMoney"}, "-": {"SubMoney"}},
 	{"+": {"MethAdd", "AddInts"}, "*": {"MulMoney"}, "==": {"EqAny"}},
 	{"+": {"AddStr"}, "!=": {"EqAny"}},
+	{"==": {"EqList", "EqMoney"}, "+": {"CatList", "AddMoney"}, "!=": {"EqList"}},
 }
 
 // resolve returns the function the library must pick for op on (lt, rt), or "".
@@ -195,6 +210,9 @@ func (g *c17Gen) bin(op string, l, r *term.Term) (*term.Term, bool) {
 		}
 	case "==", "!=", "<":
 		if (l.T == term.IntT && r.T == term.IntT) || (l.T == term.StrT && r.T == term.StrT) {
+			return tt(term.KBinary, op, term.BoolT, l, r), true
+		}
+		if op != "<" && l.T == term.IntsT && r.T == term.IntsT {
 			return tt(term.KBinary, op, term.BoolT, l, r), true
 		}
 	}
@@ -281,6 +299,15 @@ func (g *c17Gen) ints(n int) *term.Term {
 	return g.id(r.Pick([]string{"Arr", "Brr"}))
 }
 
+func (g *c17Gen) list(n int) *term.Term {
+	if n > 1 && g.r.Bool() {
+		if t, ok := g.bin("+", g.list(n/2), g.list(n/2)); ok {
+			return t
+		}
+	}
+	return g.id(g.r.Pick([]string{"L1", "L2"}))
+}
+
 func (g *c17Gen) int_(n int) *term.Term {
 	r := g.r
 	if n <= 1 {
@@ -357,8 +384,21 @@ func (g *c17Gen) bool_(n int) *term.Term {
 			g.elems = g.elems[:len(g.elems)-1]
 			return tt(term.KBuiltin, r.Pick([]string{"any", "all", "none"}), term.BoolT, g.id("Monies"), body)
 		case 6:
-			if t, ok := g.bin("==", g.str(n/2), g.str(n/2)); ok && t.T == term.BoolT {
-				return t
+			// sequences: []int operands keep the built-in ==, IntList operands
+			// take an overload declared for IntList
+			switch r.Intn(3) {
+			case 0:
+				if t, ok := g.bin("==", g.str(n/2), g.str(n/2)); ok && t.T == term.BoolT {
+					return t
+				}
+			case 1:
+				if t, ok := g.bin(r.Pick([]string{"==", "!="}), g.ints(n/2), g.ints(n/2)); ok && t.T == term.BoolT {
+					return t
+				}
+			default:
+				if t, ok := g.bin(r.Pick([]string{"==", "!="}), g.list(n/2), g.list(n/2)); ok && t.T == term.BoolT {
+					return t
+				}
 			}
 		default:
 			return g.id("P")
@@ -419,6 +459,45 @@ func explicit(t *term.Term) *term.Term {
 	return &cp
 }
 
+// callBounds: 2 if some slice has two bounds that both make calls, 1 if some
+// slice has one such bound, else 0.
+func callBounds(t *term.Term) int {
+	calls := func(x *term.Term) bool {
+		found := false
+		if x != nil {
+			x.Walk(func(y *term.Term) {
+				if y != nil && (y.K == term.KCall || y.K == term.KMethod) {
+					found = true
+				}
+			})
+		}
+		return found
+	}
+	out := 0
+	t.Walk(func(x *term.Term) {
+		if x == nil || x.K != term.KSlice {
+			return
+		}
+		n := 0
+		if calls(x.Sub[1]) {
+			n++
+		}
+		if calls(x.Sub[2]) {
+			n++
+		}
+		if n > out {
+			out = n
+		}
+	})
+	return out
+}
+
+func sortedCalls(cs []string) string {
+	cp := append([]string{}, cs...)
+	sort.Strings(cp)
+	return strings.Join(cp, ";")
+}
+
 func (tb opTable) options() []expr.Option {
 	var out []expr.Option
 	var ops []string
@@ -457,6 +536,9 @@ func init() {
 		},
 		Post: func(a *runner.Aggregate) []string {
 			var out []string
+			if a.Counters["reference_agreed"] == 0 {
+				out = append(out, "the reference evaluation never settled a case")
+			}
 			if a.Counters["forms_compared"] == 0 || a.Counters["overload_calls_logged"] == 0 {
 				out = append(out, "no overloaded occurrence was compared")
 			}
@@ -474,7 +556,8 @@ func c17Case(c *runner.Ctx, idx uint64) {
 	g := &c17Gen{r: r, tb: c17Tables[tbi], positions: map[string]bool{}}
 	t := g.top(4 + r.Intn(24))
 	opSrc := term.Print(t, term.PrintOpts{})
-	exSrc := term.Print(explicit(t), term.PrintOpts{})
+	ex := explicit(t)
+	exSrc := term.Print(ex, term.PrintOpts{})
 	c.Begin(opSrc)
 	if g.overloaded == 0 {
 		c.Count("no_overloaded_occurrence", 1)
@@ -520,6 +603,46 @@ func c17Case(c *runner.Ctx, idx uint64) {
 			same := o1.Panic == nil && o2.Panic == nil && o1.Failed() == o2.Failed() && l1 == l2
 			if same && !o1.Failed() {
 				same = mon.Canon(o1.Val) == mon.Canon(o2.Val)
+			}
+			// third oracle: the explicit-call form evaluated by the reference
+			// evaluator, which applies the Go function to the operand values
+			// itself (the two library forms share the call instruction)
+			if same && optimize {
+				e3 := newOpEnv(runner.NewRng(seed))
+				rr := ref.Eval(ex, e3, 0)
+				l3 := strings.Join(e3.log.Calls, ";")
+				l1 := l1
+				if n := callBounds(ex); n > 0 {
+					// no order is defined between the two bounds of a slice
+					// (the library evaluates the upper one first): which calls
+					// precede a failing bound is not settled, and two calling
+					// bounds are compared as a multiset
+					if rr.Fail != nil || o1.Failed() {
+						if (rr.Fail != nil) == o1.Failed() {
+							c.Count("reference_unspecified", 1)
+							continue
+						}
+					} else if n > 1 {
+						l1, l3 = sortedCalls(e1.log.Calls), sortedCalls(e3.log.Calls)
+					}
+				}
+				switch {
+				case rr.Unspec != "" || rr.Tainted || ex.HasUnspec():
+					c.Count("reference_unspecified", 1)
+				case (rr.Fail != nil) != o1.Failed() || l3 != l1 || (rr.Fail == nil && mon.Canon(rr.Value) != mon.Canon(o1.Val)):
+					cas["operator_result"] = o1.String()
+					cas["operator_calls"] = l1
+					cas["reference_result"] = refOutcome(rr)
+					cas["reference_calls"] = l3
+					kind := "value"
+					if l3 != l1 {
+						kind = "calls"
+					}
+					c.Violate("differs-from-function-application:"+kind, fmt.Sprintf("operator form %s [%s], the functions applied to the operand values give %s [%s]", o1, l1, refOutcome(rr), l3), cas)
+					return
+				default:
+					c.Count("reference_agreed", 1)
+				}
 			}
 			if !same {
 				cas["operator_result"] = o1.String()
